@@ -228,6 +228,12 @@ pub fn build_via(sm: &[ScannerMode], cached: bool) -> scnr::Result<scnr::Scanner
     }
 }
 
+/// Token types concretised in an order-preserving way (C17: the keyword list is arranged so that
+/// partition groups whose indices differ by exactly 2^16 exist; group order is token-type order)
+pub fn to_scanner_modes_mono(modes: &[RealMode]) -> Vec<ScannerMode> {
+    modes_with(modes, crate::ttmap::conc_mono)
+}
+
 /// The modes with the token types as written (automaton-level legs: dump, DOT export)
 pub fn to_scanner_modes_raw(modes: &[RealMode]) -> Vec<ScannerMode> {
     modes_with(modes, |t| t)
